@@ -1,7 +1,8 @@
 (* Executable form of C30 (and the shared machinery for C31), evaluated on what the IMPLEMENTATION did.
    A case = the op sequence given to harness/h_graph.cpp, with the implementation's output attached to the
    execute / dump ops.  The judge replays the ops on the Gallina model (Model/GraphModel.v) and, per event, reports
-     [index; kind; code30; code31; prepared]
+     [index; kind; code30; code31; prepared; live]
+   live = number of dependency edges between two incomplete nodes when the executor was called (0 for the other kinds)
    kind 0 = execute, 1 = structure dump, 2 = ForwardPropagator.
    code30: 0 = model and implementation agree and C30 holds on the implementation's log
            1 = they differ, C30 holds on the log
@@ -75,6 +76,9 @@ Fixpoint list_eqb {A} (eqb : A -> A -> bool) (l1 l2 : list A) : bool :=
   | _, _ => false
   end.
 
+Definition live_edges (x : xg) (c : zmap) : nat :=
+  list_sum (map (fun p => if incb c p then length (filter (incb c) (x_deps x p)) else 0%nat) (x_nodes x)).
+
 Record jst := mkJ { j_g : graph; j_prop : option (list positive * list positive * bool * bool); j_out : list (list Z); j_i : Z }.
 
 Definition b2z (b : bool) : Z := if b then 1 else 0.
@@ -90,12 +94,12 @@ Definition judge_step (j : jst) (o : iop) : jst :=
       let pre := forallb (fun n => getz (g_cnt g) n =? 0) M in
       let coh := sets_coherentb g in
       match forward_propagate g with
-      | None => mkJ g None (j_out j ++ [[i; 2; 1; 9; 0]]) (i + 1)
+      | None => mkJ g None (j_out j ++ [[i; 2; 1; 9; 0; 0]]) (i + 1)
       | Some g' =>
           (* the propagated state of the model: exactly the model closure is incomplete, and (when the marked nodes had
              counter 0) the state is prepared *)
           let okm := plist_eqb (sortp (fp_start g')) (sortp modelr) && (negb pre || preparedb (xg_of g') (g_cnt g')) in
-          mkJ g' (Some (ideal, modelr, pre, coh)) (j_out j ++ [[i; 2; if okm then 0 else 1; 9; b2z pre]]) (i + 1)
+          mkJ g' (Some (ideal, modelr, pre, coh)) (j_out j ++ [[i; 2; if okm then 0 else 1; 9; b2z pre; 0]]) (i + 1)
       end
   | IOp o' =>
       match apply_op g o' with
@@ -118,11 +122,11 @@ Definition judge_step (j : jst) (o : iop) : jst :=
                         else if coh then 3 else 6
                     end in
       let c' := fold_left (fun m p => PM.add (fst p) (wrap64 (snd p)) m) cnts (PM.empty Z) in
-      mkJ (with_cnt g c') None (j_out j ++ [[i; 0; code30; code31; b2z prep]]) (i + 1)
+      mkJ (with_cnt g c') None (j_out j ++ [[i; 0; code30; code31; b2z prep; Z.of_nat (live_edges x c)]]) (i + 1)
   | IDump d =>
       let same := list_eqb (list_eqb dnode_eqb) (dump_of g) d in
       let wf := wfgb g in
-      mkJ g (j_prop j) (j_out j ++ [[i; 1; if negb same then 1 else if wf then 0 else 2; 9; b2z wf]]) (i + 1)
+      mkJ g (j_prop j) (j_out j ++ [[i; 1; if negb same then 1 else if wf then 0 else 2; 9; b2z wf; 0]]) (i + 1)
   end.
 
 Definition judge_graph (c : bool * list iop) : list (list Z) :=
